@@ -126,14 +126,14 @@ def fn_parts(src: str, it: rustscan.Item):
     return toks
 
 
-def filter_attrs(src: str, it: rustscan.Item, edits: List[Edit], drops: List[str]):
+def filter_attrs(src: str, it: rustscan.Item, edits: List[Edit], drops: List[str], extra_drop=()):
     """D3: drop doc comments and attributes Verus does not know; thin out derives"""
     for (a, b) in it.attrs:
         txt = src[a:b]
         if txt.startswith('#[derive'):
             inner = txt[txt.index('(') + 1: txt.rindex(')')]
             names = [x.strip() for x in inner.split(',') if x.strip()]
-            keep = [x for x in names if x.split('::')[-1] in KEEP_DERIVES]
+            keep = [x for x in names if x.split('::')[-1] in KEEP_DERIVES and x.split('::')[-1] not in extra_drop]
             gone = [x for x in names if x not in keep]
             if gone:
                 drops.append('D3 derive(%s)' % ','.join(gone))
@@ -424,6 +424,34 @@ def process_fn(src: str, src_file: str, it: rustscan.Item, dirs: List[Directive]
             c = match_close(st, j)
             edits.append(Edit(a, st[c].end, '\n'.join(d.payload), 'region:%s:%d' % (info.fn, d.line), 'D5'))
             drops.append('D5 assumed region `%s`' % pat)
+    # --- D6 closure header annotation: `|x| body` -> `<header from the contract> { body }`
+    #     (parameter types, named return value, ensures clause and braces; the body tokens are unchanged)
+    for d in dirs:
+        if d.kind == 'closure':
+            pat = d.arg.strip('"')
+            body_txt = src[st[body_open_i].end:st[body_close_i].start]
+            k = body_txt.find(pat)
+            if k < 0 or body_txt.find(pat, k + 1) >= 0:
+                raise Undecided('lost anchor: closure %r in %s' % (pat, info.fn))
+            a = st[body_open_i].end + k
+            # pat must end with the closure's parameter list `|..|`; the closure is the last argument of the
+            # enclosing call, so its body runs to the `)` that closes the innermost open `(` of pat
+            ti = next(i for i, t in enumerate(st) if t.start >= a)
+            te = next(i for i, t in enumerate(st) if t.end >= a + len(pat))
+            open_i = None
+            for q in range(ti, te + 1):
+                if st[q].text == '(':
+                    open_i = q
+            bars = [q for q in range(ti, te + 1) if st[q].text == '|']
+            if open_i is None or len(bars) < 2 or bars[-1] != te:
+                raise Undecided('closure directive: pattern must look like `.f(|args|` in %s' % info.fn)
+            close_i = match_close(st, open_i)
+            hdr = ' '.join(x.strip() for x in d.payload)
+            edits.append(Edit(st[bars[0]].start, st[bars[-1]].end, hdr + ' {', 'closure:%s:%d' % (info.fn, d.line), 'D6'))
+            edits.append(Edit(st[close_i].start, st[close_i].start, ' }', 'real'))
+            drops.append('D6 closure header annotated `%s`' % pat)
+            info.n_ensures += 1
+            info.clauses.append(('closure-ensures', hdr))
     for d in dirs:
         if d.kind == 'attr':
             edits.append(Edit(it.start, it.start, '\n'.join(d.payload) + '\n', 'attr'))
@@ -561,7 +589,11 @@ class Unit:
     def emit_item(self, src, file, selector, it, parent, dirs):
         edits: List[Edit] = []
         drops: List[str] = []
-        filter_attrs(src, it, edits, drops)
+        extra_drop = set()
+        for d in dirs:
+            if d.kind == 'drop-derive':
+                extra_drop |= set(x.strip() for x in d.arg.split(','))
+        filter_attrs(src, it, edits, drops, extra_drop)
         infos = []
         if it.kind == 'fn':
             owner = ''
